@@ -7,6 +7,7 @@ VERIF = os.path.dirname(os.path.dirname(os.path.dirname(os.path.abspath(__file__
 
 
 def near_int(x, tol=1e-6):
+    if not math.isfinite(x): return None
     r = round(x)
     return r if abs(x - r) <= tol else None
 
@@ -85,7 +86,11 @@ def run(tier):
             if bad_depth:
                 c.mismatches.append({"id": "grid-%d" % k, "labels": ["grid-depth", cfg["type"]], "check": "depth", "op": "gwb-grid", "got": str(bad_depth),
                                      "msg": "%d nodes whose Depth is not the distance below the top of the grid (or radius outside the shell) for %s" % (bad_depth, json.dumps(cfg)), "behaviour": desc})
-            tags = [int(v) for v in m["point_data"]["Tag"]]
+            nonfinite = sum(1 for v in m["points"] + m["point_data"]["Depth"] + m["point_data"]["Temperature"] + m["point_data"]["Tag"] if not math.isfinite(v))
+            if nonfinite:
+                c.mismatches.append({"id": "grid-%d" % k, "labels": ["grid-nonfinite", cfg["type"]], "check": "finite", "op": "gwb-grid", "got": str(nonfinite),
+                                     "msg": "%d non-finite node coordinates / depths / values in the mesh written for %s" % (nonfinite, json.dumps(cfg)), "behaviour": desc})
+            tags = [int(v) if math.isfinite(v) else -99 for v in m["point_data"]["Tag"]]
             trace.append({"e": "Grid", **cfg, "nt": nt})
             for i in range(m["npoints"]):
                 trace.append({"e": "Node", "id": i, "ijk": idx[i][0], "dk": idx[i][1], "tag": tags[i]})
@@ -107,7 +112,7 @@ def run(tier):
                 pos = [x, y, m["point_data"]["Depth"][i]] if cfg["dim"] == 2 else [x, y, z, m["point_data"]["Depth"][i]]
                 vals = [m["point_data"]["Temperature"][i]] + m["point_data"]["velocity"][3 * i:3 * i + 3] + [m["point_data"]["Tag"][i]] + \
                        [m["point_data"]["Composition %d" % q][i] for q in range(nc)]
-                rows.append(pos + vals)
+                if all(math.isfinite(v) for v in pos + vals): rows.append(pos + vals)      # non-finite nodes are reported above
             off = 3 if cfg["dim"] == 2 else 4
             behaviours.append(json.dumps({"id": ["grid-values", cfg], "labels": ["grid-values", cfg["type"], "dim%d" % cfg["dim"]],
                 "steps": [{"op": "create", "h": 1, "wb": j["wb"], "default_seed": True},
